@@ -117,5 +117,8 @@ def concatenate(fields, target={}, resources=None):
                 yield concatenator(resource_chain, needed_fields, field_mapping)
             else:
                 yield resource
+        if num_concatenated == 0:
+            # nothing matched: the (empty) target resource still needs its row stream
+            yield concatenator([], needed_fields, field_mapping)
 
     return func
